@@ -16,7 +16,7 @@ THEOREMS = ["Cxx.C03_access_tracks", "Cxx.C03_member_access", "Cxx.C03_stack_ref
     "Cxx.C03_class_body",
     "Cxx.C03_class_source",
     "Cxx.C03_nested_class",
-    "Cxx.C03_cv_field", "Cxx.toplevel_field_gen"]
+    "Cxx.C03_cv_field", "Cxx.toplevel_field_gen", "Cxx.C03_field_general", "Cxx.toplevel_field_pre", "Cxx.C03_method_general", "Cxx.toplevel_method_gen"]
 ANCHORS = ["parser.py:CxxParser._parse_class_decl", "parser.py:CxxParser._parse_class_decl_base_clause", "parser.py:CxxParser._process_access_specifier",
            "parser.py:CxxParser._parse_method_end", "parser.py:CxxParser._parse_function", "parser.py:CxxParser._parse_decl", "parser.py:CxxParser._parse_field",
            "parser.py:CxxParser._finish_class_or_enum", "parser.py:CxxParser._finish_class_decl", "parser.py:CxxParser._on_block_end", "parser.py:CxxParser._pop_state",
@@ -28,7 +28,7 @@ RULE = ("class definitions from a member grammar: fields (bitfields, defaults, m
         "forward declarations, access specifiers anywhere, bases with access/virtual/pack, trailing declarators; expected "
         "ClassScope tree built by the generator; non-trivial = a class with an access specifier or a nested class")
 CARRIED_BY = {
-    "data members over ANY type specifier (cv-qualified / fundamental / qualified names, TypeSpecR): `S ptr-ops x ;` in a class body through parse()'s loop is exactly one on_class_field with the access level in force and the chain over the type S denotes; such members compose with every other member kind in Item.cls": "theorems C03_cv_field (toplevel_field_gen), Member.fieldGen (Theorems/DeclGenItems.lean)",
+    "data members over ANY type specifier (cv-qualified / fundamental / qualified names, TypeSpecR): `S ptr-ops x ;` in a class body through parse()'s loop is exactly one on_class_field with the access level in force and the chain over the type S denotes; such members compose with every other member kind in Item.cls": "theorems C03_cv_field (toplevel_field_gen), C03_field_general (toplevel_field_pre: any declarator prefix as well, e.g. references), Member.fieldGen / Member.fieldPre (Theorems/DeclGenItems.lean)",
     "WHOLE CLASS BODIES of any length through parse()'s loop: every field `T ptr-ops x;` and method `T ptr-ops f(params) quals;` is reported once, in order, with the access level left by the members before it — the LATEST `public:`/`protected:`/`private:` in its own class, or the class key's default (private for class, public for struct/union) when there is none — and `key N { members };` at namespace scope (any nesting of namespaces around it) delivers the class start, the members' callbacks inside that class block, and the class end": 'theorems C03_class_body (mseq_sound), C03_member_access_level (MSeqEv.at_member), C03_latest_specifier_wins (accAfter_spec), C03_default_access_kept (accAfter_id), C03_class_source (parse_source on Item.cls), C03_nested_class (a class nested in a class body is a member: its members start from the default of ITS key, the outer level is in force again after it; Member.cls; also Member.typedef / forwardDecl / usingAlias / enum in class bodies) — Theorems/Members.lean, MemberKinds.lean (Member.field / Member.method / Member.accessSpec, Item.cls), WholeParse.lean',
     "member functions, bit-fields and multi-declarator members, in a class body: `T ptr-ops f ( p1, …, pn ) qualifiers ;` is exactly ONE on_class_method with the access level in force in that class and exactly the written qualifier flags (const, volatile, override, final, &, &&; any number, any order); `x : width` exactly one on_class_field with the written width; `d1, d2, …, dn ;` one on_class_field per declarator, in order": "theorems C03_method_declarator, C03_toplevel_method (Theorems/MethodDecl.lean), C03_bitfield_declarator, C03_field_declarators (Theorems/FieldDecls.lean)",
     "class definitions through the parse loop and the recursive core: `class/struct/union a::…::N {` (no base clause) opens exactly ONE class block whose access level is the class-key default (private for class, public for struct/union), with the written key and name, the doc text and the access in force in the enclosing class; `} ;` of a named class ends and pops exactly that block, restores the visitor in force before it and synthesises nothing": "theorems C03_toplevel_class_head, C03_toplevel_class_end (Theorems/ClassForm.lean, TopLevel.lean); with C03_toplevel_access_specifier, C03_toplevel_field, C03_access_tracks: every data member of a class body of fields and access specifiers, nested to any depth, is reported once with the access level in force at its position",
